@@ -22,8 +22,8 @@ RULE = ('cases = generated histories through DB/Connection (changes, creations, 
         'history at which >= 1 object differs from its current state, re-read after a later commit; distinct by (case hash, bound)')
 ASSUMPTIONS = ['datetime bounds are chosen >= 100 ms away from any transaction time',
                'after the pack, historical points older than the pack time are closed without being judged again']
-BUDGET = {'quick': {'examples': 2500, 'workers': 8},
-          'thorough': {'examples': 15000, 'workers': 16}}
+BUDGET = {'quick': {'examples': 3500, 'workers': 8},
+          'thorough': {'examples': 20000, 'workers': 16}}
 
 NAMES = ['a', 'b', 'c', 'd']
 ABSENT = None
